@@ -132,9 +132,18 @@ class FileUploader(service.MultiService, Referenceable):
         d = reader.read_file()
         def _done(res):
             f.close()
-            if runtime.platform.isWindows() and targetfile.exists():
-                os.unlink(targetfile.path)
-            tmpfile.moveTo(targetfile)
+            try:
+                if runtime.platform.isWindows() and targetfile.exists():
+                    os.unlink(targetfile.path)
+                tmpfile.moveTo(targetfile)
+            except:
+                # the file cannot be published (e.g. the final name is an
+                # existing directory): do not leave the temporary behind
+                try:
+                    os.unlink(tmpfile.path)
+                except OSError:
+                    pass
+                raise
             #targetfile.chmod(self.options["mode"])
             # older Twisteds do not have FilePath.chmod
             os.chmod(targetfile.path, self.options["mode"])
